@@ -1,5 +1,5 @@
 CONSTANTS MaxDepth = 10
           MaxRowsC = 12
 INIT Init
-NEXT Next
+NEXT NextSim
 CONSTRAINT SimBound
